@@ -22,8 +22,10 @@ Inductive ktype := X25519 | P256 | P384 | P521 | Ed25519.
 Inductive encalg := A256GCM | XC20P | A128CBC | A192CBC | A256CBC384 | A256CBC512.
 (* key reference styles: did:key, a DID-document key-agreement id (document with that single key),
    a key-agreement id of a document with several keyAgreement entries where the key is not the last one,
-   raw key bytes (legacy packers called directly) *)
-Inductive kstyle := DidKey | DidDoc | DidDocMulti | RawKey.
+   raw key bytes (legacy), and raw key bytes handed to the PACKAGER where the sender's or a recipient's key has a
+   '#' byte (0x23) after position 0: packager.prepareSenderAndRecipientKeys takes such a key for a DID-document
+   key-agreement reference and fails to resolve it *)
+Inductive kstyle := DidKey | DidDoc | DidDocMulti | RawKey | RawKeyHash.
 Record cfg := mkcfg { packer_of : packer; kt_of : ktype; enc_of : encalg; style_of : kstyle }.
 (* AsIs = the code as found: the DID-document kid resolver returns the result of the LAST keyAgreement entry
    (fix: 1a07210) and JWEDecrypt unwraps ECDH-ES keys although a sender key id is present (fix: 234874c);
@@ -68,7 +70,7 @@ Definition kref_of_term (t : term) : option kref :=
   end.
 
 Definition kref_for (s : kstyle) (k : N) : kref :=
-  match s with DidKey | RawKey => KDidKey k | DidDoc => KDoc k true | DidDocMulti => KDoc k false end.
+  match s with DidKey | RawKey | RawKeyHash => KDidKey k | DidDoc => KDoc k true | DidDocMulti => KDoc k false end.
 
 (* ---------- key wrapping algorithms ---------- *)
 Inductive kwalg := ES_A256KW | ES_XC20PKW | PU_A128KW | PU_A192KW | PU_A256KW | PU_XC20PKW | AlgOther (n : N).
@@ -157,6 +159,7 @@ Definition pu_alg (kt : ktype) (e : encalg) : option kwalg :=
 (* the code's pack-side rejections, as one decidable predicate *)
 Definition rejects (c : cfg) (spar : list N) (payload sender : N) (rcpts : list N) : bool :=
   match rcpts with [] => true | _ =>
+    match style_of c with RawKeyHash => true | _ => false end ||
     match packer_of c with
     | JweAuth =>
         match kt_of c with Ed25519 => true | _ => false end
